@@ -45,10 +45,10 @@ def promoted_variant(lib, b, idx, adt):
 
 def run(ctx):
     lib = ctx.lib()
-    check_gate(ctx, lib)
-    check_mapping(ctx, lib)
-    check_equality(ctx, lib)
-    check_order_confined(ctx, lib)
+    ctx.attempt("check_gate", check_gate, ctx, lib)
+    ctx.attempt("check_mapping", check_mapping, ctx, lib)
+    ctx.attempt("check_equality", check_equality, ctx, lib)
+    ctx.attempt("check_order_confined", check_order_confined, ctx, lib)
     n = check_accessors(ctx, lib, "accessor-table")
     ctx.floor("accessor-table", n, 100, "accessor decision paths walked")
 
